@@ -260,6 +260,29 @@ def h_unit_layer(eng, names, bound):
     check(u**2, dimvec(2 * e1, 2 * e2), "dim-power")
 
 
+def h_float_registry_fraction_exponents(eng):
+    """the default (float) registry with exact Fraction exponents: products and powers of units
+    add and multiply the exponents exactly, at the Unit, container and Quantity layers
+    (concrete; division is left out: UnitsContainer.__truediv__ rounds Fraction exponents of a
+    float registry to floats, noted in DESIGN.md)"""
+    ureg = regs.float_default()
+    fr = [Fraction(-2), Fraction(-4, 3), Fraction(-3, 2), Fraction(1, 3), Fraction(2, 5), Fraction(7, 3), Fraction(3)]
+    layers = {
+        "Unit": ureg.meter / ureg.second**2,
+        "container": ureg.UnitsContainer({"meter": 1, "second": -2}),
+        "Quantity.units": ureg.Quantity(1.0, "meter / second ** 2").units,
+    }
+    for lname, u in layers.items():
+        for a in fr:
+            for b in fr:
+                eng.prove(u**a * u**b == u ** (a + b), f"float-registry:{lname}:u**a*u**b==u**(a+b):{a},{b}")
+                eng.prove(hash(u**a * u**b) == hash(u ** (a + b)), f"float-registry:{lname}:hash:{a},{b}")
+                eng.prove((u**a) ** b == u ** (a * b), f"float-registry:{lname}:(u**a)**b==u**(a*b):{a},{b}")
+            eng.prove(u**a * u ** (-a) == u**0, f"float-registry:{lname}:inverse:{a}")
+            cont = (u**a)._units if hasattr(u**a, "_units") else (u**a)
+            eng.prove(all(type(v) in (int, Fraction) for v in cont.values()), f"float-registry:{lname}:exact-exponent-types:{a}")
+
+
 # ----------------------------------------------------------------------------- pi theorem
 
 
@@ -419,6 +442,7 @@ def cases(tier, seed):
     pairs = [("newton", "meter"), ("joule", "second"), ("inch", "hertz")] + [tuple(rnd.sample(cov, 2)) for _ in range(8 if big else 2)]
     for n1, n2 in pairs:
         out.append(Case("H04.c", f"{n1},{n2}", M, "h_unit_layer", {"names": [n1, n2], "bound": 2}, opts=const, weight=30.0, validate=3))
+    out.append(Case("H04.c", "float-registry-fraction-exponents", M, "h_float_registry_fraction_exponents", {}, kind="conc"))
     for rows, cols in [(2, 2), (2, 3), (3, 2)] + ([(3, 3)] if big else []):
         out.append(Case("H04.d", f"echelon-{rows}x{cols}", M, "h_echelon", {"rows": rows, "cols": cols, "bound": 2 if rows * cols <= 6 else 1, "realise": rows * cols > 6}, opts={"hash_mode": "const", "max_paths": 60000, "max_wall_s": 900, "query_timeout_ms": 30000}, weight=80.0, validate=4))
     for rows, cols in [(2, 3)] + ([(3, 3), (2, 4)] if big else []):
